@@ -48,6 +48,7 @@ let parse_src (s : string) : src =
   | ["wrong"; k] -> SWrong (n_of_string k)
   | ["boxwrong"; k] -> SBoxWrong (n_of_string k)
   | ["lz"; d; vid; idx] -> SLazy (n_of_string d, nat_of_string vid, n_of_string idx)
+  | ["ulz"; d] -> SLazyUser (n_of_string d)
   | ["tmp"; vid; k; idx] -> STemp (nat_of_string vid, parse_tkind k, n_of_string idx)
   | _ -> fail_parse "src" s
 
